@@ -1,5 +1,6 @@
 import Proofs.C18.Fee
 import Proofs.C18.Float
+import Proofs.C18.Funding
 /-!
 # C18 — sizes, fees and amounts are exact integer accounting (DESIGN §3 C18)
 
@@ -163,5 +164,98 @@ example : Core.getDustThreshold ([0, 20] ++ List.replicate 20 7) 3000 = 294 := b
 example : Core.getDustThreshold ([0x51, 32] ++ List.replicate 32 7) 3000 = 330 := by decide
 example : Core.getDustThreshold ([0xa9, 20] ++ List.replicate 20 7 ++ [0x87]) 3000 = 540 := by decide
 example : Core.getDustThreshold [0x6a, 1, 2] 3000 = 0 := by decide
+
+/-! ## T3 — funding (`tx_builder.build_psbt`), for every estimator `est` -/
+
+/-- Value is conserved: inputs = outputs + fee + change (change 0 when no change output). -/
+theorem funding_conserves (a : FundArgs) (est : Bool → Except PyErr Int) (r : Funded)
+    (h : fund a est = .ok r) : a.totalIn = a.totalOut + r.fee + r.change.getD 0 := by
+  obtain ⟨_, h | h⟩ := fund_ok a est r h
+  · obtain ⟨_, _, _, _, _, _, hr⟩ := fundNoChange_ok a est r h.1
+    subst hr; simp; omega
+  · obtain ⟨_, _, fee, _, _, _, _, _, _, _, hr⟩ := h
+    subst hr; simp; omega
+
+/-- The fee returned is at least what the rate asks of the estimated size of the psbt returned
+    (with the change output when there is one, without it when it was dropped). -/
+theorem funding_pays_rate (a : FundArgs) (est : Bool → Except PyErr Int) (r : Funded)
+    (h : fund a est = .ok r) :
+    ∃ v owed, est r.change.isSome = .ok v ∧ Gen.Fee.fee_from_vsize v a.rate = .ok owed ∧ owed ≤ r.fee := by
+  obtain ⟨_, h | h⟩ := fund_ok a est r h
+  · obtain ⟨_, v, owed, he, hf, hle, hr⟩ := fundNoChange_ok a est r h.1
+    subst hr
+    exact ⟨v, owed, he, hf, hle⟩
+  · obtain ⟨_, v, fee, _, _, he, hf, _, _, _, hr⟩ := h
+    subst hr
+    exact ⟨v, fee, he, hf, Int.le_refl _⟩
+
+/-- A change output is created only for a change script, is never dust for that script at the dust
+    rate, and never makes the outputs exceed MAX_MONEY. -/
+theorem funding_no_dust_change (a : FundArgs) (est : Bool → Except PyErr Int) (r : Funded) (c : Int)
+    (h : fund a est = .ok r) (hc : r.change = some c) :
+    ∃ script dust, a.change = some script ∧ dustThreshold script a.dustRate = .ok dust ∧
+      dust ≤ c ∧ a.totalOut + c ≤ 2100000000000000 := by
+  obtain ⟨_, h | h⟩ := fund_ok a est r h
+  · obtain ⟨_, _, _, _, _, _, hr⟩ := fundNoChange_ok a est r h.1
+    subst hr; cases hc
+  · obtain ⟨script, _, fee, dust, hs, _, _, hd, hge, hmax, hr⟩ := h
+    subst hr
+    cases hc
+    exact ⟨script, dust, hs, hd, hge, hmax⟩
+
+/-- Refusal, exactly.  With an estimator that answers (`v₁` with the change output, `v₂` without),
+    valid rates and outputs within MAX_MONEY:
+    * when change is created (a change script, and what the fee leaves is not dust) the only refusal
+      left is the amount rule — the change would exceed MAX_MONEY;
+    * otherwise `build_psbt` refuses iff nothing is paid or the inputs do not cover outputs + fee. -/
+theorem funding_refuses_exactly (a : FundArgs) (est : Bool → Except PyErr Int) (v₁ v₂ fee₁ owed₂ : Int)
+    (hm : a.totalOut ≤ 2100000000000000)
+    (he₁ : est true = .ok v₁) (he₂ : est false = .ok v₂)
+    (hf₁ : Gen.Fee.fee_from_vsize v₁ a.rate = .ok fee₁) (hf₂ : Gen.Fee.fee_from_vsize v₂ a.rate = .ok owed₂) :
+    (a.change = none →
+      (fund a est = .error .value ↔ (a.nOut = 0 ∨ a.totalIn < a.totalOut + owed₂)) ∧
+      (fund a est = .ok ⟨a.totalIn - a.totalOut, none⟩ ↔ ¬ (a.nOut = 0 ∨ a.totalIn < a.totalOut + owed₂))) ∧
+    (∀ script dust, a.change = some script → dustThreshold script a.dustRate = .ok dust →
+      (dust ≤ a.totalIn - a.totalOut - fee₁ →
+        (fund a est = .error .value ↔ a.totalIn - fee₁ > 2100000000000000) ∧
+        (fund a est = .ok ⟨fee₁, some (a.totalIn - a.totalOut - fee₁)⟩ ↔ ¬ a.totalIn - fee₁ > 2100000000000000)) ∧
+      (a.totalIn - a.totalOut - fee₁ < dust →
+        (fund a est = .error .value ↔ (a.nOut = 0 ∨ a.totalIn < a.totalOut + owed₂)) ∧
+        (fund a est = .ok ⟨a.totalIn - a.totalOut, none⟩ ↔ ¬ (a.nOut = 0 ∨ a.totalIn < a.totalOut + owed₂)))) := by
+  have hmx : Gen.Fee.MAX_SATOSHI = 2100000000000000 := rfl
+  have key : ∀ (P : Prop) [Decidable P] (x : Funded),
+      ((if P then (Except.error PyErr.value : Except PyErr Funded) else .ok x) = .error .value ↔ P) ∧
+      ((if P then (Except.error PyErr.value : Except PyErr Funded) else .ok x) = .ok x ↔ ¬ P) := by
+    intro P _ x
+    by_cases hp : P <;> simp [hp]
+  have nc := fundNoChange_eq a est v₂ owed₂ he₂ hf₂
+  have cond : (a.nOut = 0 ∨ a.totalIn - a.totalOut < owed₂) ↔ (a.nOut = 0 ∨ a.totalIn < a.totalOut + owed₂) := by
+    constructor <;> (rintro (h | h); exact Or.inl h; exact Or.inr (by omega))
+  constructor
+  · intro hch
+    rw [fund_eq_nochange a est (by omega) hch, nc]
+    have := key (a.nOut = 0 ∨ a.totalIn - a.totalOut < owed₂) ⟨a.totalIn - a.totalOut, none⟩
+    exact ⟨this.1.trans cond, this.2.trans (not_congr cond)⟩
+  · intro script dust hch hd
+    have fe := fund_eq_change a est script v₁ fee₁ dust (by omega) hch he₁ hf₁ hd
+    constructor
+    · intro hge
+      rw [fe]
+      simp only [ge_iff_le, hge, if_true, hmx]
+      exact key _ _
+    · intro hlt
+      rw [fe]
+      have : ¬ (a.totalIn - a.totalOut - fee₁ ≥ dust) := by omega
+      simp only [this, if_false, nc]
+      have := key (a.nOut = 0 ∨ a.totalIn - a.totalOut < owed₂) ⟨a.totalIn - a.totalOut, none⟩
+      exact ⟨this.1.trans cond, this.2.trans (not_congr cond)⟩
+
+-- non-vacuity: one funded psbt with change, one whose change was dust and went to the fee, one refusal
+example : fund ⟨100000, 60000, 1, 10000, some ([0, 20] ++ List.replicate 20 7), 3000⟩ (fun b => .ok (if b then 141 else 110))
+    = .ok ⟨1410, some 38590⟩ := by decide
+example : fund ⟨61500, 60000, 1, 10000, some ([0, 20] ++ List.replicate 20 7), 3000⟩ (fun b => .ok (if b then 141 else 110))
+    = .ok ⟨1500, none⟩ := by decide
+example : fund ⟨61000, 60000, 1, 10000, some ([0, 20] ++ List.replicate 20 7), 3000⟩ (fun b => .ok (if b then 141 else 110))
+    = .error .value := by decide
 
 end Props.C18
